@@ -494,6 +494,8 @@ def run_once(case: Dict, mode: str) -> Run:
                 try:
                     r.outcomes.append(f"{op[0]}={do_op(game, meta, op, am)}")
                 except Exception as e:  # driver boundary: not a C06 matter, the run stops here
+                    if exc_sig(e).endswith("@?"):
+                        raise  # no primaite frame in the traceback: the harness itself is wrong -> exit 2
                     r.aborted = f"{op[0]}:{exc_sig(e)}"
                     r.aborted_at = len(r.snaps)
                     r.outcomes.append(f"{op[0]} raised {exc_msg(e)[:120]}")
